@@ -35,10 +35,28 @@ def load_contracts(ns):
     ns['TABLE'] = TABLE
     ns['SPEC'] = SPEC
     ns['LEMMA'] = LEMMA
+    class Lazy(ast.NodeTransformer):
+        """implies(a, b) / ite(c, a, b) are lazy in the specification language: natively they become `or` / `if-else`"""
+        def visit_Call(self, node):
+            self.generic_visit(node)
+            if isinstance(node.func, ast.Name) and node.func.id == 'implies' and len(node.args) == 2:
+                return ast.BoolOp(op=ast.Or(), values=[ast.UnaryOp(op=ast.Not(), operand=node.args[0]), node.args[1]])
+            if isinstance(node.func, ast.Name) and node.func.id == 'ite' and len(node.args) == 3:
+                return ast.IfExp(test=node.args[0], body=node.args[1], orelse=node.args[2])
+            return node
+
+        def visit_Compare(self, node):
+            self.generic_visit(node)
+            if len(node.ops) == 1 and isinstance(node.ops[0], (ast.Eq, ast.NotEq)):
+                call = ast.Call(func=ast.Name(id='rt_eq', ctx=ast.Load()), args=[node.left, node.comparators[0]], keywords=[])
+                return call if isinstance(node.ops[0], ast.Eq) else ast.UnaryOp(op=ast.Not(), operand=call)
+            return node
     for fn in sorted(os.listdir(cdir)):
         if fn.endswith('.py'):
             src = open(os.path.join(cdir, fn)).read()
-            exec(compile(src, fn, 'exec'), ns)
+            tree = Lazy().visit(ast.parse(src, fn))
+            ast.fix_missing_locations(tree)
+            exec(compile(tree, fn, 'exec'), ns)
     return contracts
 
 
